@@ -488,6 +488,8 @@ class PropertyRun:
                 f"{c.file}:{c.qualname} ({c.notes})" for c in REGISTRY.contracts.values() if c.assumed and any(p == self.pid for p in c.props)
             ],
             "prover_cpython_consistency": getattr(self, "consistency", {}),
+            "lemmas_machine_checked_by_lean_this_run": getattr(self, "lean_checked", []),
+            "run_notes": self.notes[:40],
             "dropped_constructs": "type annotations, docstrings, messages of raise/assert/warn (exception type kept), print/print_log, tqdm wrapper, del",
             "undecided": self.undecided,
             "failed": [v["key"] for v in self.violations],
